@@ -34,6 +34,8 @@ class Flow:
         # of interest do not pass: they stand for their default values.
         self.tuples = namedtuples(module) if module is not None else {}
         _KNOWN_TUPLES.update(self.tuples)
+        if module is not None:
+            _KNOWN_CLASSES.update(value_classes(module))
         self.inlined_stores = {}      # id(stmt) -> [(target text, kind, payload)] contributed by inlined helpers
         self.inlined = {}             # id(stmt) -> (sub-Flow, binding) of the helper call the statement makes
         self.assigned = {}            # id(Assign stmt) -> the resolved value it assigns (helper calls looked through)
@@ -344,6 +346,68 @@ class Flow:
         r = walk(self.func.body, [])
         return r if r is not None else []
 
+    def guard_nodes(self, node, raises=False):
+        """as guards(), with the resolved tests as expressions: [(ast, True = body / False = orelse)]"""
+        exits = (ast.Return, ast.Continue, ast.Break) + ((ast.Raise,) if raises else ())
+
+        def has(s):
+            return s is node or any(n is node for n in ast.walk(s))
+
+        def walk(stmts, acc):
+            acc = list(acc)
+            for s in stmts:
+                if has(s):
+                    if isinstance(s, ast.If):
+                        if any(n is node for n in ast.walk(s.test)):
+                            return acc
+                        t = self.resolve(s.test, s)
+                        r = walk(s.body, acc + [(t, True)])
+                        return r if r is not None else walk(s.orelse, acc + [(t, False)])
+                    if isinstance(s, (ast.With, ast.AsyncWith, ast.For, ast.AsyncFor, ast.While, ast.Try)):
+                        for blk in ([s.body, getattr(s, 'orelse', []), getattr(s, 'finalbody', [])] + [h.body for h in getattr(s, 'handlers', [])]):
+                            r = walk(blk, acc)
+                            if r is not None:
+                                return r
+                        return acc
+                    return acc
+                if isinstance(s, ast.If) and not s.orelse and s.body and isinstance(s.body[-1], exits):
+                    acc.append((self.resolve(s.test, s), False))
+            return None
+        r = walk(self.func.body, [])
+        return r if r is not None else []
+
+    def return_expr(self):
+        """the function's value as ONE expression: `v1 if g1 else (v2 if g2 else ... vn)` over its own return statements in source order,
+        gi the conjunction of the path conditions of the i-th return (the returns of a function exclude each other, and the last one is what
+        remains).  None when the function has a return inside a loop / try, or none at all."""
+        rets = own_returns(self.func)
+        if not rets or any(r.value is None for r in rets):
+            return None
+
+        def in_loop(r, stmts):
+            for s in stmts:
+                if isinstance(s, (ast.For, ast.AsyncFor, ast.While, ast.Try)) and any(n is r for n in ast.walk(s)):
+                    return True
+                for fld in ('body', 'orelse'):
+                    if isinstance(getattr(s, fld, None), list) and not isinstance(s, (ast.FunctionDef, ast.ClassDef)) and in_loop(r, getattr(s, fld)):
+                        return True
+            return False
+        if any(in_loop(r, self.func.body) for r in rets):
+            return None
+        expr = None
+        for r in reversed(rets):
+            v = self.resolve(r.value, r)
+            if expr is None:
+                expr = v
+                continue
+            conds = [t if pol else ast.UnaryOp(op=ast.Not(), operand=t) for t, pol in self.guard_nodes(r)]
+            if not conds:
+                expr = v        # an unconditional return: what follows is dead code
+                continue
+            g = conds[0] if len(conds) == 1 else ast.BoolOp(op=ast.And(), values=conds)
+            expr = ast.IfExp(test=g, body=v, orelse=expr)
+        return ast.fix_missing_locations(expr)
+
     def stores(self):
         """writes through subscripts / attributes and `out=` keyword arguments, in source order:
         (stmt, resolved target text, kind, payload) with kind in {'assign', 'aug', 'call'}"""
@@ -434,6 +498,50 @@ def namedtuples(tree):
 
 
 _KNOWN_TUPLES = {}
+_KNOWN_CLASSES = {}     # class name -> (classmethods {name: FunctionDef}, properties {name: FunctionDef}) of the module's NamedTuple classes
+
+
+def own_returns(func):
+    """the Return statements of `func` itself, in source order (not those of functions / lambdas nested in it)"""
+    out = []
+
+    def walk(n):
+        for c in ast.iter_child_nodes(n):
+            if isinstance(c, (ast.FunctionDef, ast.AsyncFunctionDef, ast.Lambda, ast.ClassDef)):
+                continue
+            if isinstance(c, ast.Return):
+                out.append(c)
+            walk(c)
+    walk(func)
+    return out
+
+
+def value_classes(tree):
+    """single-return classmethods (alternative constructors) and properties of the module's NamedTuple classes"""
+    out = {}
+    for node in ast.walk(tree):
+        if isinstance(node, ast.ClassDef) and any(ast.unparse(b) in ('NamedTuple', 'typing.NamedTuple') for b in node.bases):
+            cms, props = {}, {}
+            for f in node.body:
+                if isinstance(f, ast.FunctionDef):
+                    body = [b for b in f.body if not (isinstance(b, ast.Expr) and isinstance(b.value, ast.Constant))]
+                    if len(body) == 1 and isinstance(body[0], ast.Return) and body[0].value is not None:
+                        decos = [ast.unparse(d) for d in f.decorator_list]
+                        if decos == ['classmethod']:
+                            cms[f.name] = f
+                        elif decos == ['property']:
+                            props[f.name] = f
+            out[node.name] = (cms, props)
+    return out
+
+
+def _substitute(expr, binding):
+    import copy
+
+    class Sub(ast.NodeTransformer):
+        def visit_Name(self, n):
+            return copy.deepcopy(binding[n.id]) if isinstance(n.ctx, ast.Load) and n.id in binding else n
+    return Sub().visit(copy.deepcopy(expr))
 
 
 def simplify(node):
@@ -447,8 +555,28 @@ def simplify(node):
             if isinstance(f, ast.Attribute) and f.attr in ('any', 'all', 'prod') and not n.args and not n.keywords \
                     and not (isinstance(f.value, ast.Name) and f.value.id in ('np', 'numpy')):
                 return ast.Call(func=ast.Attribute(value=ast.Name(id='np', ctx=ast.Load()), attr=f.attr, ctx=ast.Load()), args=[f.value], keywords=[])
+            if isinstance(f, ast.Attribute) and isinstance(f.value, ast.Name) and f.value.id in _KNOWN_CLASSES and f.attr in _KNOWN_CLASSES[f.value.id][0] \
+                    and not any(isinstance(a, ast.Starred) for a in n.args):
+                # C.from_x(a) with a one-line classmethod `return cls(...)`: the constructor call it makes (`**kw` handed on to a `**kwargs`)
+                cm = _KNOWN_CLASSES[f.value.id][0][f.attr]
+                ps = [a.arg for a in cm.args.posonlyargs + cm.args.args]
+                star = [k for k in n.keywords if k.arg is None]
+                kw_ok = not n.keywords or (cm.args.kwarg is not None and len(n.keywords) == 1 and len(star) == 1)
+                if len(ps) == len(n.args) + 1 and not cm.args.defaults and kw_ok:
+                    body = [b for b in cm.body if isinstance(b, ast.Return)][0].value
+                    binding = {ps[0]: ast.Name(id=f.value.id, ctx=ast.Load())}
+                    binding.update({p_: a for p_, a in zip(ps[1:], n.args)})
+                    if star:
+                        binding[cm.args.kwarg.arg] = star[0].value
+                    return self.visit(_substitute(body, binding))
             if isinstance(f, ast.Attribute) and isinstance(f.value, ast.Name) and f.value.id == 'np' and f.attr in ('asarray', 'asanyarray'):
                 n.func = ast.Attribute(value=f.value, attr='array', ctx=ast.Load())
+            if isinstance(f, ast.Attribute) and isinstance(f.value, ast.Name) and f.value.id == 'np' and not n.keywords:
+                if f.attr in ('logical_not', 'invert', 'bitwise_not') and len(n.args) == 1:
+                    return ast.UnaryOp(op=ast.Invert(), operand=n.args[0])
+                cmp_ = {'greater_equal': ast.GtE, 'greater': ast.Gt, 'less_equal': ast.LtE, 'less': ast.Lt, 'equal': ast.Eq, 'not_equal': ast.NotEq}.get(f.attr)
+                if cmp_ is not None and len(n.args) == 2:
+                    return ast.Compare(left=n.args[0], ops=[cmp_()], comparators=[n.args[1]])
             if isinstance(f, ast.Attribute) and f.attr == 'astype' and n.args and isinstance(n.args[0], ast.Constant) and n.args[0].value in ('int', 'bool', 'float'):
                 n.args[0] = ast.Name(id=n.args[0].value, ctx=ast.Load())
             kws = []
@@ -457,6 +585,9 @@ def simplify(node):
                 if k.arg is None and isinstance(v, ast.Call) and isinstance(v.func, ast.Attribute) and v.func.attr == '_asdict' and not v.args \
                         and isinstance(v.func.value, ast.Call) and not v.func.value.args and all(kk.arg is not None for kk in v.func.value.keywords):
                     kws.extend(ast.keyword(arg=kk.arg, value=kk.value) for kk in v.func.value.keywords)
+                elif k.arg is None and isinstance(v, ast.Call) and isinstance(v.func, ast.Name) and v.func.id == 'dict' and not v.args \
+                        and v.keywords and all(kk.arg is not None for kk in v.keywords):
+                    kws.extend(ast.keyword(arg=kk.arg, value=kk.value) for kk in v.keywords)       # f(**dict(a=x)) = f(a=x)
                 else:
                     kws.append(k)
             n.keywords = kws
@@ -472,6 +603,12 @@ def simplify(node):
                 fields = _KNOWN_TUPLES.get(v.func.id)
                 if fields and n.attr in fields and fields.index(n.attr) < len(v.args):
                     return v.args[fields.index(n.attr)]
+                props = _KNOWN_CLASSES.get(v.func.id, ({}, {}))[1]
+                if n.attr in props:
+                    # C(...).prop with a one-line property: its return expression about this very value
+                    pf = props[n.attr]
+                    body = [b for b in pf.body if isinstance(b, ast.Return)][0].value
+                    return self.visit(_substitute(body, {pf.args.args[0].arg: v}))
             return n
 
         def visit_Subscript(self, n):
@@ -482,3 +619,84 @@ def simplify(node):
                 return n.value.elts[n.slice.value]
             return n
     return S().visit(node)
+
+
+# ---------------------------------------------------------------------------------------------------------------- guard-clause normal form
+def _negate(t):
+    if isinstance(t, ast.UnaryOp) and isinstance(t.op, ast.Not):
+        return t.operand
+    flip = {ast.Eq: ast.NotEq, ast.NotEq: ast.Eq, ast.In: ast.NotIn, ast.NotIn: ast.In, ast.Is: ast.IsNot, ast.IsNot: ast.Is}
+    if isinstance(t, ast.Compare) and len(t.ops) == 1 and type(t.ops[0]) in flip:
+        return ast.copy_location(ast.Compare(left=t.left, ops=[flip[type(t.ops[0])]()], comparators=t.comparators), t)
+    return ast.copy_location(ast.UnaryOp(op=ast.Not(), operand=t), t)
+
+
+def normalise_exits(tree):
+    """Rewrite early exits ("guard clauses") into nested conditionals, in place, so that both styles of one control flow give one tree:
+      1. `if c: ...; return/continue/break` followed by more statements   ->  `if c: ...; return  else: <the statements>`
+      2. a bare `return` / `continue` where falling off the end of the block means the same is dropped
+      3. two branches that end in the same `return e` hand it to the statement after the `if`
+      4. `if c: <nothing> else: X`  ->  `if not c: X`
+    (`raise` is not treated as an exit: argument checks stay where they are.)  Every rule preserves the meaning of the code."""
+    exits = (ast.Return, ast.Continue, ast.Break)
+
+    def ends_in_exit(stmts):
+        return bool(stmts) and isinstance(stmts[-1], exits)
+
+    def block(stmts, tail):
+        stmts = list(stmts)
+        # rule 1
+        for i, st in enumerate(stmts):
+            if isinstance(st, ast.If) and not st.orelse and ends_in_exit(st.body) and i + 1 < len(stmts):
+                st.orelse = stmts[i + 1:]
+                stmts = stmts[:i + 1]
+                break
+        out = []
+        for i, st in enumerate(stmts):
+            t = tail if i == len(stmts) - 1 else None
+            if isinstance(st, ast.If):
+                st.body = block(st.body, t)
+                st.orelse = block(st.orelse, t)
+                # rule 3
+                hoisted = None
+                if st.body and st.orelse and isinstance(st.body[-1], ast.Return) and isinstance(st.orelse[-1], ast.Return) \
+                        and ast.dump(st.body[-1]) == ast.dump(st.orelse[-1]):
+                    hoisted = st.body[-1]
+                    st.body, st.orelse = st.body[:-1], st.orelse[:-1]
+                # rule 4
+                if not st.body and st.orelse:
+                    st.test, st.body, st.orelse = _negate(st.test), st.orelse, []
+                if not st.body and not st.orelse:
+                    st.body = [ast.copy_location(ast.Pass(), st)]
+                out.append(st)
+                if hoisted is not None:
+                    out.append(hoisted)
+                continue
+            if isinstance(st, (ast.With, ast.AsyncWith)):
+                st.body = block(st.body, t) or [ast.copy_location(ast.Pass(), st)]
+            elif isinstance(st, (ast.For, ast.AsyncFor, ast.While)):
+                st.body = block(st.body, 'continue') or [ast.copy_location(ast.Pass(), st)]
+                st.orelse = block(st.orelse, t)
+            elif isinstance(st, ast.Try):
+                st.body = block(st.body, None)
+                for h in st.handlers:
+                    h.body = block(h.body, None)
+                st.orelse = block(st.orelse, None)
+                st.finalbody = block(st.finalbody, None)
+            elif isinstance(st, (ast.FunctionDef, ast.AsyncFunctionDef)):
+                st.body = block(st.body, 'return') or [ast.copy_location(ast.Pass(), st)]
+            elif isinstance(st, ast.ClassDef):
+                st.body = block(st.body, None)
+            out.append(st)
+        # rule 2
+        if out and ((tail == 'return' and isinstance(out[-1], ast.Return) and out[-1].value is None) or (tail == 'continue' and isinstance(out[-1], ast.Continue))):
+            out = out[:-1]
+        return out
+    tree.body = block(tree.body, None)
+    return ast.fix_missing_locations(tree)
+
+
+def parse_source(text, **kw):
+    """ast.parse + the guard-clause normal form"""
+    import os
+    return ast.parse(text, **kw) if os.environ.get('HV_NO_NORMALISE') else normalise_exits(ast.parse(text, **kw))
